@@ -104,6 +104,136 @@ def generated_problems():
         out[p.name] = p
     except Exception:
         pass
+    # ---- families that reach each branch of the declared-kind programs
+    try:
+        from unified_planning.shortcuts import (Fluent, InstantaneousAction, UserType, Object, BoolType, Problem, Equals, Exists, Forall,
+                                                Variable, Not, IntType, GlobalStartTiming)
+        # (a) an object fluent assigned from a parameter / an object constant / a static fluent / a changing fluent,
+        #     with and without an equality elsewhere in the problem
+        for src in ("param", "const", "static_fluent", "fluent"):
+            for eq_elsewhere in (False, True):
+                Loc = UserType("Loc")
+                p = Problem("gen_of_%s%s" % (src, "_eq" if eq_elsewhere else ""))
+                at, home, prev = Fluent("at", Loc), Fluent("home", Loc), Fluent("prev", Loc)
+                visited, ok = Fluent("visited", BoolType(), l=Loc), Fluent("ok")
+                l1, l2 = Object("l1", Loc), Object("l2", Loc)
+                p.add_objects([l1, l2])
+                p.add_fluent(at, default_initial_value=l1)
+                p.add_fluent(visited, default_initial_value=False)
+                p.add_fluent(ok, default_initial_value=False)
+                mv = InstantaneousAction("mv", to=Loc)
+                to = mv.parameter("to")
+                if src == "param":
+                    mv.add_effect(at, to)
+                elif src == "const":
+                    mv.add_effect(at, l2)
+                elif src == "static_fluent":
+                    p.add_fluent(home, default_initial_value=l2)
+                    mv.add_effect(at, home)
+                else:
+                    p.add_fluent(prev, default_initial_value=l2)
+                    mv.add_effect(at, prev)
+                    sw = InstantaneousAction("sw", x=Loc)
+                    sw.add_effect(prev, sw.parameter("x"))
+                    p.add_action(sw)
+                mv.add_effect(visited(to), True)
+                if eq_elsewhere:
+                    mv.add_precondition(Not(Equals(to, l1)))
+                mark = InstantaneousAction("mark")
+                mark.add_precondition(visited(at))
+                mark.add_effect(ok, True)
+                p.add_action(mv)
+                p.add_action(mark)
+                p.add_goal(ok)
+                out[p.name] = p
+        # (b) each quantifier kind alone, in a precondition / an effect condition / a goal, no other disjunction
+        for quant in ("exists", "forall"):
+            for where in ("pre", "effcond", "goal"):
+                T = UserType("T")
+                p = Problem("gen_q_%s_%s" % (quant, where))
+                pr, q = Fluent("pr", BoolType(), x=T), Fluent("q")
+                a, b = Object("a", T), Object("b", T)
+                p.add_objects([a, b])
+                p.add_fluent(pr, default_initial_value=False)
+                p.add_fluent(q, default_initial_value=False)
+                v = Variable("v", T)
+                cond = (Exists if quant == "exists" else Forall)(pr(v), v)
+                setp = InstantaneousAction("setp", x=T)
+                setp.add_effect(pr(setp.parameter("x")), True)
+                p.add_action(setp)
+                fin = InstantaneousAction("fin")
+                if where == "pre":
+                    fin.add_precondition(cond)
+                    fin.add_effect(q, True)
+                elif where == "effcond":
+                    fin.add_effect(q, True, condition=cond)
+                else:
+                    fin.add_effect(q, True)
+                p.add_action(fin)
+                p.add_goal(cond if where == "goal" else q)
+                out[p.name] = p
+        # negative conditions with and without equalities
+        for eq in (False, True):
+            T = UserType("T")
+            p = Problem("gen_neg%s" % ("_eq" if eq else ""))
+            pr, q = Fluent("pr", BoolType(), x=T), Fluent("q")
+            a, b = Object("a", T), Object("b", T)
+            p.add_objects([a, b])
+            p.add_fluent(pr, default_initial_value=False)
+            p.add_fluent(q, default_initial_value=False)
+            act = InstantaneousAction("act", x=T)
+            act.add_precondition(Not(pr(act.parameter("x"))))
+            if eq:
+                act.add_precondition(Equals(act.parameter("x"), a))
+            act.add_effect(pr(act.parameter("x")), True)
+            act.add_effect(q, True)
+            p.add_action(act)
+            p.add_goal(q)
+            out[p.name] = p
+        # a bounded fluent / a state invariant together with a timed effect
+        for what in ("bounded", "invariant"):
+            p = Problem("gen_til_%s" % what)
+            n = Fluent("n", IntType(0, 5)) if what == "bounded" else Fluent("n", IntType())
+            q = Fluent("q")
+            p.add_fluent(n, default_initial_value=0)
+            p.add_fluent(q, default_initial_value=False)
+            inc = InstantaneousAction("inc")
+            inc.add_effect(n, 3)
+            inc.add_effect(q, True)
+            p.add_action(inc)
+            p.add_timed_effect(GlobalStartTiming(5), n, 1)
+            if what == "invariant":
+                from unified_planning.shortcuts import LE
+                p.add_state_invariant(LE(n, 4))
+            p.add_goal(q)
+            out[p.name] = p
+        # an interpreted function whose (object) value is assigned to an object fluent
+        try:
+            from collections import OrderedDict
+            from unified_planning.shortcuts import InterpretedFunction
+            Loc = UserType("Loc")
+            p = Problem("gen_if_object_assignment")
+            l1, l2 = Object("l1", Loc), Object("l2", Loc)
+            p.add_objects([l1, l2])
+            at, flag, ok = Fluent("at", Loc), Fluent("flag"), Fluent("ok")
+            visited = Fluent("visited", BoolType(), l=Loc)
+            p.add_fluent(at, default_initial_value=l1)
+            p.add_fluent(flag, default_initial_value=True)
+            p.add_fluent(ok, default_initial_value=False)
+            p.add_fluent(visited, default_initial_value=False)
+            sig = OrderedDict()
+            sig["b"] = BoolType()
+            pick = InterpretedFunction("pick", Loc, sig, lambda b: l2 if b else l1)
+            go = InstantaneousAction("go")
+            go.add_effect(at, pick(flag))
+            go.add_effect(ok, True)
+            p.add_action(go)
+            p.add_goal(ok)
+            out[p.name] = p
+        except Exception as ex:
+            out["__generator_error_if__"] = ex
+    except Exception as ex:
+        out["__generator_error__"] = ex
     try:
         from unified_planning.test.examples import multi_agent
         for k, e in multi_agent.get_example_problems().items():
@@ -149,7 +279,9 @@ def run(ctx):
     up = I.up
     from unified_planning.test.examples import get_example_problems
     problems = {k: e.problem for k, e in get_example_problems().items()}
-    problems.update(generated_problems())
+    gen = generated_problems()
+    gen_errors = {k: repr(v) for k, v in gen.items() if k.startswith("__")}
+    problems.update({k: v for k, v in gen.items() if not k.startswith("__")})
     env = up.environment.get_environment()
     factory = up.environment.Environment().factory
     registered = [n for n in I.builtin if n in factory.engines]
@@ -166,7 +298,7 @@ def run(ctx):
     # ------------------------------------------------------------------ (ii) every compiler x every supported problem
     ccases, craw = [], []
     stats = {"compilers": len(compilers), "problems": len(problems), "compiler_runs": 0, "skipped_compile_error": {}, "skipped_timeout": 0,
-             "per_compiler": {}, "runs_where_declared_differs_from_input": 0, "runs_where_compiled_differs_from_input": 0}
+             "per_compiler": {}, "branch_coverage": {}, "branches_not_reached": [], "runs_where_declared_differs_from_input": 0, "runs_where_compiled_differs_from_input": 0}
     for n in compilers:
         cls = classes[n]
         cks = [i for i, ck in enumerate(I.CK) if cls.supports_compilation(ck)]
@@ -204,6 +336,15 @@ def run(ctx):
                 stats["runs_where_compiled_differs_from_input"] += rec["out"] != rec["in"]
                 done += 1
         stats["per_compiler"][n] = done
+        # which branches of the declared-kind program did the validated inputs reach (has_x() true / false on the input kind)?
+        cov = {}
+        for h in I.tested_has(cls):
+            vals = set(bool(getattr(problems[r["problem"]].kind, "has_" + h)()) for r in craw if r["compiler"] == n)
+            cov[h] = sorted(vals)
+            for want in (True, False):
+                if want not in vals:
+                    stats["branches_not_reached"].append("%s: has_%s() never %s on a validated input" % (n, h, want))
+        stats["branch_coverage"][n] = cov
     phase["compile_runs"] = round(time.time() - t0, 1); t0 = time.time()
     cbad = ctx.coq_failing(ccases, "cc_ok ENG", imports=IMPORTS, preamble=pre_names, shard=max(1, (len(ccases) + 1) // 2))
     phase["coq_compilers"] = round(time.time() - t0, 1); t0 = time.time()
@@ -239,7 +380,7 @@ def run(ctx):
     maxlen = 2 if ctx.quick else 3
     seqs = [list(s) for L in range(1, maxlen + 1) for s in itertools.permutations(offered, L)]
     pnames = [k for k, p in problems.items() if type(p).__name__ == "Problem"]
-    sample = sorted(rng.sample(pnames, 2 if ctx.quick else 5))
+    sample = sorted(rng.sample(pnames, 4 if ctx.quick else 10))
     n_run = 60 if ctx.quick else 400
     pcases, praw = [], []
     pstats = {"problems": sample, "sequences_per_problem": len(seqs), "requests": 0, "built": 0, "not_built": {}, "run_stage_by_stage": 0,
@@ -371,6 +512,7 @@ def run(ctx):
         "distribution": {"compilers": stats, "pipelines": pstats},
         "undeclared_feature_groups": sorted("%s:%s" % g for g in groups),
         "translators_ok": [tr1, tr2],
+        "generator_errors": gen_errors,
         "phase_seconds": phase,
         "exhaustive": False,
         "trusted_extra": ["tools/gen_engines.py, tools/gen_kind.py", "Problem.kind is taken as the kind of a problem (C10)"],
